@@ -252,7 +252,7 @@ func genTicker(t *rapid.T) TickerPlan {
 			e.Dt = rapid.SampledFrom([]int64{0, 1, 2, 3, 5, 10, 25}).Draw(t, "dt") // in tenths of the current d
 		case "reset":
 			e.D, e.J = genDJ(t, "reset")
-			e.Dt = rapid.SampledFrom([]int64{0, 0, 1}).Draw(t, "after") // 0: right away; 1: just before the next tick is due
+			e.Dt = rapid.SampledFrom([]int64{0, 0, 1, 2, 2}).Draw(t, "after") // 0: right away; 1: just before the next tick is due; 2: at the very instant it is due
 		case "stop":
 			if i < n-3 {
 				e.Op = "wait"
@@ -289,7 +289,12 @@ func runTicker(p TickerPlan) (vk.Outcome, error) {
 		var ticks []time.Time
 		stopped := false
 		var lastTickOrReset = time.Now()
+		var notBefore time.Time // set by Reset: "the next tick will arrive after the new period elapses"
 		got := func(ts time.Time) bool {
+			if ts.Before(notBefore) {
+				verr = vk.Violf("tick-after-reset", "a tick stamped %v before the earliest time the new period allows was delivered after Reset had returned (and the channel had been drained)", notBefore.Sub(ts))
+				return false
+			}
 			if stopped {
 				verr = vk.Violf("tick-after-stop", "a tick (%v) was delivered after Stop had returned and the channel had been drained", ts)
 				return false
@@ -344,10 +349,14 @@ func runTicker(p TickerPlan) (vk.Outcome, error) {
 				}
 				limit.Stop()
 			case "reset":
-				if stopped {
-					continue
+				if e.Dt == 2 && d < 1<<40 && !stopped {
+					// exactly when a tick can fire at the earliest: Reset races with the timer's callback
+					if wait := lastTickOrReset.Add(time.Duration(d - j)).Sub(time.Now()); wait > 0 {
+						time.Sleep(wait)
+					}
+					out.Label("reset-at-due-instant")
 				}
-				if e.Dt == 1 && d < 1<<40 {
+				if e.Dt == 1 && d < 1<<40 && !stopped {
 					// just before a tick could be due at the earliest
 					if wait := lastTickOrReset.Add(time.Duration(d - j)).Sub(time.Now()); wait > 1 {
 						time.Sleep(wait - 1)
@@ -360,9 +369,20 @@ func runTicker(p TickerPlan) (vk.Outcome, error) {
 					break
 				}
 				if !panicked {
+					// whatever was sent before Reset returned may still sit in the one-slot buffer
+					select {
+					case ts := <-tk.C:
+						got(ts)
+					default:
+					}
 					d, j = e.D, e.J
 					cfgs = append(cfgs, cfgChange{time.Now(), d, j})
 					lastTickOrReset = time.Now()
+					notBefore = time.Now().Add(time.Duration(d - j))
+					if stopped {
+						out.Label("reset-after-stop") // Reset on a stopped ticker starts it again
+						stopped = false
+					}
 					out.Label("reset")
 				}
 			case "stop":
